@@ -30,6 +30,7 @@ func (cl *w4Conn) dropKey(ks *w4KeyState, seq int64, why string) {
 		ks.endWhy = why
 	}
 	ks.has, ks.data = false, nil
+	ks.staleItem = false
 }
 
 func (cl *w4Conn) endTrackingAll(seq int64, why string) {
@@ -177,6 +178,13 @@ func (cl *w4Conn) onCmdReply(seq int64, cmd *w4Cmd, rep *protocol.Reply) {
 				w.violate(false, "version-not-increasing", "track reply item not newer than the version the client reported", "client %d key %s: item version %d, client reported %d", cl.idx, pub.Key, pub.Version, cmd.Claimed[pub.Key])
 				continue
 			}
+			if ks.has && pub.Version < ks.dataVer {
+				// the reply was built before an update that the connection, already a
+				// subscriber of the key through an earlier track, was pushed ahead of it: a
+				// client that takes the item as the key's data goes back to an older payload
+				ks.staleItem = true
+				w.s.Probe("track_reply_item_older_than_pushed_update")
+			}
 			cl.applyUpdate(ks, pub, "track reply item")
 		}
 		for _, k := range cmd.Unt {
@@ -200,6 +208,12 @@ func (cl *w4Conn) applyUpdate(ks *w4KeyState, pub *protocol.Publication, what st
 	sfx := ""
 	if cfg.PrevData {
 		sfx = " [backend-supplied PrevData]"
+	}
+	if ks.staleItem && pub.Delta {
+		sfx += " [after a track reply whose item is older than an update pushed before it]"
+	}
+	if !pub.Delta && what != "track reply item" {
+		ks.staleItem = false
 	}
 	if pub.Delta && ks.broken {
 		// a delta already failed for this key: everything until the next full payload
@@ -271,6 +285,7 @@ func (cl *w4Conn) applyUpdate(ks *w4KeyState, pub *protocol.Publication, what st
 		ks.broken = false
 	}
 	ks.base, ks.gen, ks.data, ks.has = pub.Version, rec.gen, full, true
+	ks.dataVer = pub.Version
 	ks.npush++
 	if ks.npush >= 2 {
 		w.s.Probe("nontrivial:C25")
